@@ -203,7 +203,7 @@ def run_quad(case):
 # ------------------------------------------------------------------------------------------
 def strat_ms(tier):
     return st.fixed_dictionaries({"o": gen.optics(any_norm=True), "s": gen.sphere_dimless(0.05, 12.0, mlo=0.6, mhi=2.2),
-                                  "wrap": st.booleans()})
+                                  "wrap": st.booleans(), "warm": gen.warm_strategy()})
 
 
 def run_ms(case):
@@ -213,9 +213,12 @@ def run_ms(case):
         s = dict(s); s["m"] = [s["m"][0], round(20.0 / s["x"], 7)]
     k = gen.wavevec(o)
     sph = gen.make_sphere(s, o, (0.0, 0.0, 0.0))
-    a = calc_cross_sections(Spheres([sph]) if case["wrap"] else sph, theory=Multisphere(qeps1=1e-9, qeps2=1e-12), **gen.optics_kwargs(o)).values
+    msth = Multisphere(qeps1=1e-9, qeps2=1e-12)
+    # one theory object, used before on a sibling sphere (a remembered solution must not come back)
+    gen.warm_up(msth, Spheres([sph]) if case["wrap"] else sph, o, case.get("warm"))
+    a = calc_cross_sections(Spheres([sph]) if case["wrap"] else sph, theory=msth, **gen.optics_kwargs(o)).values
     b = calc_cross_sections(sph, theory=Mie(), **gen.optics_kwargs(o)).values
-    labels = [size_class(s["x"]), "absorbing" if s["m"][1] else "real"]
+    labels = [size_class(s["x"]), "absorbing" if s["m"][1] else "real"] + (["theory_used_before_" + case["warm"]] if case.get("warm") else [])
     rel = np.abs(a[:3] - b[:3]) / b[2]
     eg = abs(a[3] - b[3])
     met = {"sca_rel_to_ext": rel[0], "abs_rel_to_ext": rel[1], "ext_rel": rel[2], "g_abs": eg}
